@@ -13,7 +13,7 @@ import os
 import glob
 import unicodedata
 import pytree
-from checks import pygen, syntaxrun as sr, lexcommon as lx
+from checks import pygen, syntaxrun as sr, lexcommon as lx, softkw
 
 SUBLANGS = ["exprcore", "atoms", "atoms2", "prec", "calls", "simple", "compound", "defs", "pats", "softkw"]
 
@@ -113,13 +113,16 @@ def run(ctx):
         ctx.sample({"sublanguage": name, "text": pygen.realize(cases[len(cases) // 2])[0]})
         check_cases(ctx, cases, name)
     corpus_differential(ctx)
+    softkw.run(ctx)
 
 
 def replay(ctx, rec):
     c = rec["case"]
     ctx.states = ctx.transitions = 1
     h = ctx.harness("default")
-    if c["fam"] == "py":
+    if c["fam"].startswith("softkw"):
+        softkw.replay(ctx, c)
+    elif c["fam"] == "py":
         resp = h.run([c["request"]])[0]
         ctx.replayed += 1
         want = c["expected"]
